@@ -30,7 +30,7 @@ Proof.
   set (e := rat_exp B N D) in *.
   exists (j + p), (e + j + 1). split; [lia|]. split; [lia|]. split; [lia|].
   pose proof (pw (e + j + 1) ltac:(lia)) as Pex. pose proof (pw (j + p) ltac:(lia)) as Psh.
-  split; [nia|].
+  split; [apply Z.mul_pos_pos; lia|].
   replace (e - p + 1) with (e + j + 1 - (j + p)) by lia.
   split; [apply (round_at_scaled B B_ge_2 m N D (j + p) (e + j + 1) 0 HD); lia|].
   split; [intros M; apply (round_at_scaled B B_ge_2 m N D (j + p) (e + j + 1) M HD); lia|].
@@ -58,12 +58,12 @@ Proof.
   pose proof (spec_round_multiple m (B ^ (p - 1)) d Pd) as X1. pose proof (spec_round_multiple m (B ^ p) d Pd) as X2.
   pose proof (spec_round_multiple m (- B ^ (p - 1)) d Pd) as Y1. pose proof (spec_round_multiple m (- B ^ p) d Pd) as Y2.
   destruct (Z.lt_trichotomy N 0) as [Neg|[Z0|Pos]]; [|contradiction|].
-  - assert (n < 0) by (unfold n; nia). rewrite Z.abs_neq in L, U by lia.
+  - assert (n < 0) by (unfold n; apply Z.mul_neg_pos; lia). rewrite Z.abs_neq in L, U by lia.
     pose proof (spec_round_mono m n (- B ^ (p - 1) * d) d Pd ltac:(lia)) as A1.
     pose proof (spec_round_mono m (- B ^ p * d) n d Pd ltac:(lia)) as A2.
     rewrite <- EM in A1, A2. rewrite Y1 in A1. rewrite Y2 in A2.
     rewrite (Z.sgn_neg N), (Z.sgn_neg M), (Z.abs_neq M) by lia. lia.
-  - assert (0 < n) by (unfold n; nia). rewrite Z.abs_eq in L, U by lia.
+  - assert (0 < n) by (unfold n; apply Z.mul_pos_pos; lia). rewrite Z.abs_eq in L, U by lia.
     pose proof (spec_round_mono m (B ^ (p - 1) * d) n d Pd ltac:(lia)) as A1.
     pose proof (spec_round_mono m n (B ^ p * d) d Pd ltac:(lia)) as A2.
     rewrite <- EM in A1, A2. rewrite X1 in A1. rewrite X2 in A2.
@@ -83,7 +83,7 @@ Proof.
   assert (Mid : Z.abs N * B ^ j * B ^ j' <= Z.abs N' * B ^ j' * B ^ j).
   { replace (Z.abs N * B ^ j * B ^ j') with (Z.abs N * (B ^ j * B ^ j')) by ring.
     replace (Z.abs N' * B ^ j' * B ^ j) with (Z.abs N' * (B ^ j * B ^ j')) by ring.
-    apply Z.mul_le_mono_nonneg_r; nia. }
+    apply Z.mul_le_mono_nonneg_r; [apply Z.mul_nonneg_nonneg; lia | lia]. }
   assert (P : B ^ (e + j + j') < B ^ (e' + 1 + j' + j)).
   { rewrite (Z.pow_add_r B (e + j) j'), (Z.pow_add_r B (e' + 1 + j') j) by lia.
     apply (Z.mul_lt_mono_pos_l D); [exact HD|]. rewrite !Z.mul_assoc. lia. }
@@ -147,47 +147,49 @@ Proof.
   pose proof (flag_of_error_inj _ _ _ _ Sg0 Fa Fz) as Ec.
   destruct (Z.eq_dec ea ez) as [Eq|Ne].
   - (* one exponent *)
-    rewrite <- Eq in *. clear Eq. assert (Ee : e = ea) by lia. rewrite Ee in *. clear Ee E1 E2.
-    assert (ka = kz) by lia. subst kz. assert (EM : Mz = Ma) by lia.
+    rewrite <- Eq in *. clear Eq. assert (Ee : e = ea) by (clear - E1 E2; lia). rewrite Ee in *. clear Ee E1 E2.
+    assert (ka = kz) by (clear - Xa Xz; lia). subst kz. assert (EM : Mz = Ma) by (rewrite EMa, EMz; reflexivity).
     remember (ea - p + 1) as u.
     set (sh := if 0 <=? u then 0 else - u). set (ex := if 0 <=? u then u else 0).
     assert (Hsh : 0 <= sh) by (unfold sh; destruct (Z.leb_spec 0 u); lia).
     assert (Hex : 0 <= ex) by (unfold ex; destruct (Z.leb_spec 0 u); lia).
     assert (Eu : u = ex - sh) by (unfold sh, ex; destruct (Z.leb_spec 0 u); lia).
     pose proof (pw sh Hsh) as Psh. pose proof (pw ex Hex) as Pex.
-    assert (Pd : 0 < D * B ^ ex) by nia.
+    assert (Pd : 0 < D * B ^ ex) by (apply Z.mul_pos_pos; lia).
     destruct (round_at_scaled B B_ge_2 m Na D sh ex Ma HD Hsh Hex) as [Ra Ca].
     destruct (round_at_scaled B B_ge_2 m Nz D sh ex Ma HD Hsh Hex) as [Rz Cz].
     destruct (round_at_scaled B B_ge_2 m N D sh ex Ma HD Hsh Hex) as [Rn Cn].
     rewrite <- Eu in *. rewrite <- HeqMa in Ra. rewrite EM in HeqMz. rewrite <- HeqMz in Rz.
     assert (EMn : round_rat_at B m N D u = Ma).
     { rewrite Rn. destruct Ord as [[P [O1 O2]]|[P [O1 O2]]].
-      - transitivity (spec_round m (Na * B ^ sh) (D * B ^ ex)); [|symmetry; exact Ra]. apply (spec_round_between m (Na * B ^ sh) (N * B ^ sh) (Nz * B ^ sh) _ Pd); [nia|]. rewrite <- Ra, <- Rz. reflexivity.
-      - transitivity (spec_round m (Nz * B ^ sh) (D * B ^ ex)); [|symmetry; exact Rz]. apply (spec_round_between m (Nz * B ^ sh) (N * B ^ sh) (Na * B ^ sh) _ Pd); [nia|]. rewrite <- Ra, <- Rz. reflexivity. }
+      - transitivity (spec_round m (Na * B ^ sh) (D * B ^ ex)); [|symmetry; exact Ra]. apply (spec_round_between m (Na * B ^ sh) (N * B ^ sh) (Nz * B ^ sh) _ Pd); [split; apply Z.mul_le_mono_nonneg_r; lia|]. rewrite <- Ra, <- Rz. reflexivity.
+      - transitivity (spec_round m (Nz * B ^ sh) (D * B ^ ex)); [|symmetry; exact Rz]. apply (spec_round_between m (Nz * B ^ sh) (N * B ^ sh) (Na * B ^ sh) _ Pd); [split; apply Z.mul_le_mono_nonneg_r; lia|]. rewrite <- Ra, <- Rz. reflexivity. }
     unfold convert_value_spec. rewrite (rat_spec_nz p m N D HN). rewrite <- Heqe, <- Hequ. rewrite EMn. rewrite Na_n.
     rewrite SgN.
     assert (Ecn : cmp_kx B 1 (XRat N D) Ma u = cmp_kx B 1 (XRat Na D) Ma u).
-    { rewrite EM in Ec. rewrite Cn, Ca. rewrite Ca, Cz in Ec.
-      destruct (Z.compare_spec (Ma * (D * B ^ ex)) (Na * B ^ sh)) as [C1|C1|C1];
-        destruct (Z.compare_spec (Ma * (D * B ^ ex)) (Nz * B ^ sh)) as [C2|C2|C2]; try discriminate;
-        destruct (Z.compare_spec (Ma * (D * B ^ ex)) (N * B ^ sh)) as [C3|C3|C3]; try reflexivity; exfalso;
-        try (rewrite C1 in Fa; cbn in Fa; discriminate);
-        destruct Ord as [[P [O1 O2]]|[P [O1 O2]]]; nia. }
+    { rewrite EM in Ec. rewrite Cn, Ca. rewrite Ca, Cz in Ec. rewrite Ca in Fa.
+      assert (Obt : (Na * B ^ sh <= N * B ^ sh /\ N * B ^ sh <= Nz * B ^ sh) \/ (Nz * B ^ sh <= N * B ^ sh /\ N * B ^ sh <= Na * B ^ sh)).
+      { destruct Ord as [[P [O1 O2]]|[P [O1 O2]]]; [left|right]; split; apply Z.mul_le_mono_nonneg_r; lia. }
+      revert Fa Ec. generalize (Ma * (D * B ^ ex)) (Na * B ^ sh) (N * B ^ sh) (Nz * B ^ sh) Obt. clear.
+      intros X A V Zz Obt Fa Ec.
+      destruct (Z.compare_spec X A) as [C1|C1|C1]; [cbn in Fa; discriminate| |];
+        destruct (Z.compare_spec X Zz) as [C2|C2|C2]; try discriminate;
+        destruct (Z.compare_spec X V) as [C3|C3|C3]; try reflexivity; exfalso; lia. }
     rewrite Ecn, Fa. reflexivity.
   - (* two exponents: the far end would be a power of the base reached from both sides with different flags *)
     exfalso.
-    assert (Lt : ea < ez) by lia.
-    assert (Ek : ka = kz + (ez - ea)) by lia.
+    assert (Lt : ea < ez) by (clear - E1 E2 Ne; lia).
+    assert (Ek : ka = kz + (ez - ea)) by (clear - Xa Xz; lia).
     assert (EMM : Ma = Mz * B ^ (ez - ea)).
-    { rewrite EMa, EMz, Ek. rewrite Z.pow_add_r by lia. ring. }
-    pose proof (pw (ez - ea) ltac:(lia)) as Pt.
-    assert (Bt : B ^ 1 <= B ^ (ez - ea)) by (apply Z.pow_le_mono_r; lia). rewrite Z.pow_1_r in Bt.
-    assert (Eabs : Z.abs Ma = Z.abs Mz * B ^ (ez - ea)) by (rewrite EMM, Z.abs_mul, (Z.abs_eq (B ^ (ez - ea))) by lia; reflexivity).
-    assert (Epp : B ^ p = B ^ (p - 1) * B) by (replace p with (p - 1 + 1) at 1 by lia; rewrite Z.pow_add_r, Z.pow_1_r by lia; reflexivity).
-    assert (T1 : B ^ (p - 1) * B ^ (ez - ea) <= Z.abs Mz * B ^ (ez - ea)) by (apply Z.mul_le_mono_nonneg_r; lia).
-    assert (T2 : B ^ (p - 1) * B <= B ^ (p - 1) * B ^ (ez - ea)) by (apply Z.mul_le_mono_nonneg_l; lia).
-    assert (T3 : Z.abs Mz * B ^ (ez - ea) = B ^ (p - 1) * B ^ (ez - ea)) by lia.
-    assert (TopZ' : Z.abs Mz = B ^ (p - 1)) by (apply (Z.mul_reg_r _ _ (B ^ (ez - ea))); lia).
+    { rewrite EMa, EMz, Ek. rewrite Z.pow_add_r by (clear - Hkz Lt; lia). ring. }
+    pose proof (pw (ez - ea) ltac:(clear - Lt; lia)) as Pt.
+    assert (Bt : B ^ 1 <= B ^ (ez - ea)) by (apply Z.pow_le_mono_r; clear - B_ge_2 Lt; lia). rewrite Z.pow_1_r in Bt.
+    assert (Eabs : Z.abs Ma = Z.abs Mz * B ^ (ez - ea)) by (rewrite EMM, Z.abs_mul, (Z.abs_eq (B ^ (ez - ea))) by (clear - Pt; lia); reflexivity).
+    assert (Epp : B ^ p = B ^ (p - 1) * B) by (replace p with (p - 1 + 1) at 1 by (clear; lia); rewrite Z.pow_add_r, Z.pow_1_r by (clear - Hp; lia); reflexivity).
+    assert (T1 : B ^ (p - 1) * B ^ (ez - ea) <= Z.abs Mz * B ^ (ez - ea)) by (apply Z.mul_le_mono_nonneg_r; [clear - Pt; lia | clear - Bz; lia]).
+    assert (T2 : B ^ (p - 1) * B <= B ^ (p - 1) * B ^ (ez - ea)) by (apply Z.mul_le_mono_nonneg_l; [clear - Pp1; lia | clear - Bt; lia]).
+    assert (T3 : Z.abs Mz * B ^ (ez - ea) = B ^ (p - 1) * B ^ (ez - ea)) by (clear - Eabs T1 T2 Ba Epp; lia).
+    assert (TopZ' : Z.abs Mz = B ^ (p - 1)) by (apply (Z.mul_reg_r _ _ (B ^ (ez - ea))); [clear - Pt; lia | exact T3]).
     assert (TopA' : Z.abs Ma = B ^ (p - 1) * B ^ (ez - ea)) by (rewrite Eabs; exact T3).
     assert (Top : Z.abs Ma = B ^ p /\ Z.abs Mz = B ^ (p - 1)).
     { split; [|exact TopZ']. destruct Ba as [_ Ba2]. rewrite Epp in *. rewrite TopA' in *. apply Z.le_antisymm; assumption. }
@@ -198,27 +200,26 @@ Proof.
     rewrite Ca in Fa. rewrite Cz in Fz.
     destruct Ord as [[P [O1 O2]]|[P [O1 O2]]].
     + (* positive *)
-      rewrite SgZ in Sz. rewrite (Z.sgn_pos Na) in Fa, Fz, Sa, Sz by lia.
-      assert (EqA : Ma = B ^ p) by (destruct (Z.sgn_spec Ma) as [[? ?]|[[? ?]|[? ?]]]; lia).
-      assert (EqZ : Mz = B ^ (p - 1)) by (destruct (Z.sgn_spec Mz) as [[? ?]|[[? ?]|[? ?]]]; lia).
-      pose proof (pw sha ltac:(lia)). 
-      rewrite Z.abs_eq in Ua by (apply Z.mul_nonneg_nonneg; [lia|apply Z.pow_nonneg; lia]).
-      rewrite Z.abs_eq in Lz by (apply Z.mul_nonneg_nonneg; [lia|apply Z.pow_nonneg; lia]).
+      rewrite SgZ in Sz. rewrite (Z.sgn_pos Na P) in Fa, Fz, Sa, Sz.
+      assert (EqA : Ma = B ^ p) by (clear - TopA Sa; destruct (Z.sgn_spec Ma) as [[? ?]|[[? ?]|[? ?]]]; lia).
+      assert (EqZ : Mz = B ^ (p - 1)) by (clear - TopZ Sz; destruct (Z.sgn_spec Mz) as [[? ?]|[[? ?]|[? ?]]]; lia).
+      rewrite Z.abs_eq in Ua by (apply Z.mul_nonneg_nonneg; [clear - P; lia|apply Z.pow_nonneg; clear - B_ge_2; lia]).
+      rewrite Z.abs_eq in Lz by (apply Z.mul_nonneg_nonneg; [clear - P O1 O2; lia|apply Z.pow_nonneg; clear - B_ge_2; lia]).
       rewrite EqA in Fa. rewrite EqZ in Fz.
       revert Fa Fz.
-      destruct (Z.compare_spec (B ^ p * (D * B ^ exa)) (Na * B ^ sha)) as [C1|C1|C1]; [exfalso; lia | exfalso; lia |].
-      destruct (Z.compare_spec (B ^ (p - 1) * (D * B ^ exz)) (Nz * B ^ shz)) as [C2|C2|C2]; [| | exfalso; lia]; cbn; intros; congruence.
+      destruct (Z.compare_spec (B ^ p * (D * B ^ exa)) (Na * B ^ sha)) as [C1|C1|C1]; [exfalso; clear - C1 Ua; lia | exfalso; clear - C1 Ua; lia |].
+      destruct (Z.compare_spec (B ^ (p - 1) * (D * B ^ exz)) (Nz * B ^ shz)) as [C2|C2|C2]; [| | exfalso; clear - C2 Lz; lia]; cbn; intros; congruence.
     + (* negative *)
-      rewrite SgZ in Sz. rewrite (Z.sgn_neg Na) in Fa, Fz, Sa, Sz by lia.
-      assert (EqA : Ma = - B ^ p) by (destruct (Z.sgn_spec Ma) as [[? ?]|[[? ?]|[? ?]]]; lia).
-      assert (EqZ : Mz = - B ^ (p - 1)) by (destruct (Z.sgn_spec Mz) as [[? ?]|[[? ?]|[? ?]]]; lia).
-      assert (Na * B ^ sha < 0) by (apply Z.mul_neg_pos; [lia|apply Z.pow_pos_nonneg; lia]).
-      assert (Nz * B ^ shz < 0) by (apply Z.mul_neg_pos; [lia|apply Z.pow_pos_nonneg; lia]).
-      rewrite Z.abs_neq in Ua by lia. rewrite Z.abs_neq in Lz by lia.
+      rewrite SgZ in Sz. rewrite (Z.sgn_neg Na P) in Fa, Fz, Sa, Sz.
+      assert (EqA : Ma = - B ^ p) by (clear - TopA Sa; destruct (Z.sgn_spec Ma) as [[? ?]|[[? ?]|[? ?]]]; lia).
+      assert (EqZ : Mz = - B ^ (p - 1)) by (clear - TopZ Sz; destruct (Z.sgn_spec Mz) as [[? ?]|[[? ?]|[? ?]]]; lia).
+      assert (NA0 : Na * B ^ sha < 0) by (apply Z.mul_neg_pos; [exact P|apply Z.pow_pos_nonneg; [clear - B_ge_2; lia|exact Hsha]]).
+      assert (NZ0 : Nz * B ^ shz < 0) by (apply Z.mul_neg_pos; [clear - P O1 O2; lia|apply Z.pow_pos_nonneg; [clear - B_ge_2; lia|exact Hshz]]).
+      rewrite Z.abs_neq in Ua by (clear - NA0; lia). rewrite Z.abs_neq in Lz by (clear - NZ0; lia).
       rewrite EqA in Fa. rewrite EqZ in Fz.
       revert Fa Fz.
-      destruct (Z.compare_spec (- B ^ p * (D * B ^ exa)) (Na * B ^ sha)) as [C1|C1|C1]; [exfalso; lia | | exfalso; lia].
-      destruct (Z.compare_spec (- B ^ (p - 1) * (D * B ^ exz)) (Nz * B ^ shz)) as [C2|C2|C2]; [| exfalso; lia |]; cbn; intros; congruence.
+      destruct (Z.compare_spec (- B ^ p * (D * B ^ exa)) (Na * B ^ sha)) as [C1|C1|C1]; [exfalso; clear - C1 Ua; lia | | exfalso; clear - C1 Ua; lia].
+      destruct (Z.compare_spec (- B ^ (p - 1) * (D * B ^ exz)) (Nz * B ^ shz)) as [C2|C2|C2]; [| exfalso; clear - C2 Lz; lia |]; cbn; intros; congruence.
 Qed.
 
 Lemma spec_zero_exact p m D h x r : convert_value_spec B p m 0 D <> (h, x, FInexact r).
@@ -239,7 +240,7 @@ Theorem convert_value_spec_between p m N1 D1 N D N2 D2 h x r : 1 <= p -> 0 < D1 
   convert_value_spec B p m N D = (h, x, FInexact r).
 Proof.
   intros Hp HD1 HD HD2 L U H1 H2.
-  set (DD := D1 * D * D2). assert (HDD : 0 < DD) by (unfold DD; nia).
+  set (DD := D1 * D * D2). assert (HDD : 0 < DD) by (unfold DD; apply Z.mul_pos_pos; [apply Z.mul_pos_pos|]; lia).
   rewrite (convert_value_spec_ratio B B_ge_2 p m N1 D1 (N1 * D * D2) DD HD1 HDD ltac:(unfold DD; ring)) in H1.
   rewrite (convert_value_spec_ratio B B_ge_2 p m N2 D2 (N2 * D1 * D) DD HD2 HDD ltac:(unfold DD; ring)) in H2.
   rewrite (convert_value_spec_ratio B B_ge_2 p m N D (N * D1 * D2) DD HD HDD ltac:(unfold DD; ring)).
